@@ -1,5 +1,6 @@
 """C16 — matchers compute exact boolean logic; check operations keep their contract.
 Model: coq/theories/Model/PyVal.v, Model/Matcher.v ; theorems: Props/C16.v ; table: gen/TablesMatchers.v."""
+import copy
 import json
 import os
 
@@ -271,7 +272,7 @@ def check(run):
     run.assume += [
         "actual and expected values are None, bool, int, str, list or dict (no float, tuple, set, bytes, user classes); "
         "is_between bounds are ints; starts_with/ends_with/contains_string receive a str",
-        "match_pattern, is_text, is_json, is_float, custom EntryMatcher and the *_in operations are not modelled",
+        "match_pattern, is_text, is_float, custom EntryMatcher and the *_in operations are not modelled; is_json only by its verdict (= py_eq), on structures whose dicts have keys of one kind (json.dumps(sort_keys=True) must be able to order them)",
         "DISPLAY_DETAILS_WHEN_EQUAL keeps its default (True)",
         "the operations are called from a running test (log_check needs a session)",
     ]
@@ -318,6 +319,64 @@ def check(run):
                               {"kind": "logic", "expr": repr(sub), "value": repr(sv), "implementation": got, "reference": want})
         if i < 2:
             run.sample({"expr": repr(e), "observed": [[repr(v), list(o)] for v, o in obs[:4]]})
+
+    # ---- is_json(expected): no constructor of its own in the model -- its verdict is Python's == on the two structures, i.e.
+    # Model.PyVal.py_eq; what json.dumps prints (1 and True, the keys 1 and "1") is not what decides
+    import lemoncheesecake.matching as M
+
+    def retype(x, alias):
+        if isinstance(x, bool):
+            return int(x)
+        if isinstance(x, int):
+            return bool(x) if x in (0, 1) else x
+        if isinstance(x, list):
+            return [retype(y, alias) for y in x]
+        if isinstance(x, dict):
+            return {(str(k) if alias and isinstance(k, int) and not isinstance(k, bool) else retype(k, False)): retype(y, alias) for k, y in x.items()}
+        return x
+    def sortable(x):
+        if isinstance(x, list):
+            return all(sortable(y) for y in x)
+        if isinstance(x, dict):
+            return len(set(isinstance(k, str) for k in x)) <= 1 and None not in x and all(sortable(y) for y in x.values())
+        return True
+    jcases = [({1: "a"}, {"1": "a"}), (1, True), ([0, {"a": 1}], [False, {"a": True}]), ({"a": [1, 2]}, {"a": [1, 2]}), ({True: "x"}, {1: "x"})]
+    while len(jcases) < (400 if quick else 6000):
+        e = G.gen_value(run.rng) if run.rng.random() < 0.7 else run.rng.choice(G.value_domain(run.rng, 29))
+        r = run.rng.random()
+        v = retype(e, False) if r < 0.35 else retype(e, True) if r < 0.6 else copy.deepcopy(e) if r < 0.8 else G.gen_value(run.rng)
+        # is_json prints both structures with json.dumps(sort_keys=True): the keys of one dict must be comparable with each other
+        if sortable(v) and sortable(e):
+            jcases.append((v, e))
+    jobs = []
+    for v, e in jcases:
+        run.evaluations += 1
+        run.count("is_json_pairs")
+        try:
+            got = bool(M.is_json(e).matches(v))
+            neg = bool(M.not_(M.is_json(e)).matches(v))
+        except Exception as ex:     # noqa: BLE001
+            run.violation("logic:is_json", "is_json raised %s" % type(ex).__name__, {"kind": "is_json", "value": repr(v), "expected": repr(e)})
+            continue
+        want = bool(v == e)
+        run.count("is_json_equal" if want else "is_json_different")
+        if want and repr(v) != repr(e):
+            run.count("is_json_equal_but_printed_differently")
+            run.nontrivial.add("is_json:" + repr((v, e)))
+        if got != want or neg == got:
+            run.violation("logic:is_json", "is_json(%r) on %r: verdict %r (not_: %r) although the two structures are %s for Python" % (
+                e, v, got, neg, "equal" if want else "different"), {"kind": "is_json", "value": repr(v), "expected": repr(e), "implementation": got, "reference": want})
+        jobs.append((v, e, got))
+    if getattr(run, "model_ok", False) and jobs:
+        body = ";\n".join("(%s, %s, %s)" % (G.c_val(v), G.c_val(e), c_bool(b)) for v, e, b in jobs)
+        rc, out = run.coq_eval("isjson", HEADER + "Definition jcases : list (pyval * pyval * bool) := [\n%s\n].\n" % body +
+                               "Eval vm_compute in (find_indexes (fun c => let '(v, e, b) := c in negb (Bool.eqb (py_eq v e) b)) jcases).\n")
+        bad = lib.parse_nat_list(out) if rc == 0 else None
+        if bad is None:
+            run.tie_broken("is_json case file did not evaluate", detail=out[-1500:])
+        for idx in (bad or [])[:3]:
+            v, e, b = jobs[idx]
+            run.tie_broken("PyVal.py_eq = verdict of is_json", case={"value": repr(v), "expected": repr(e)}, impl=b)
 
     # ---- operations: one real run per batch, contract oracle
     ocases = [("check_that", F8_WITNESS, 3, False, "value"), ("check_that", ("any_of", []), 1, False, None),
@@ -389,6 +448,12 @@ def replay(path):
         got, want = outcome(impl_truth, e, v), outcome(reference, e, v)
         print(json.dumps({"expr": rp["expr"], "value": rp["value"], "implementation": got, "reference": want}))
         return 1 if got != want else 0
+    if rp.get("kind") == "is_json":
+        import lemoncheesecake.matching as M
+        e, v = G.parse(rp["expected"]), G.parse(rp["value"])
+        got, neg = bool(M.is_json(e).matches(v)), bool(M.not_(M.is_json(e)).matches(v))
+        print(json.dumps({"expected": rp["expected"], "value": rp["value"], "is_json": got, "not_is_json": neg, "python_eq": v == e}))
+        return 1 if got != (v == e) or neg == got else 0
     if rp.get("kind") == "operation":
         e, v = G.parse(rp["expr"]), G.parse(rp["value"])
         o = I.run_operations([(rp["op"], e, v, rp["quiet"], rp.get("hint"))])[0]
